@@ -127,3 +127,68 @@ func hugeAV1(n, mtu int) Ev {
 	})
 	return Ev{"ev": "huge", "n": n, "mtu": mtu, "res": r, "nfrags": len(frags), "maxlen": maxLen(frags), "facts": []bool{outOK}}
 }
+
+// C12: one VP9 frame of n bytes (profile-0 key frame header, 640x480) -> VP9Payloader -> VP9Packet
+func hugeVP9(n, mtu int, flexible bool) Ev {
+	frame := hugePattern(n)
+	copy(frame, []byte{0x82, 0x49, 0x83, 0x42, 0x20, 0x27, 0xF0, 0x1D, 0xF0, 0x00}) // frame marker, key frame, sync code, 640x480
+	var frags [][]byte
+	concatOK, beOK, pidOK := false, true, true
+	r, _ := guard(func() {
+		p := &codecs.VP9Payloader{FlexibleMode: flexible, InitialPictureIDFn: func() uint16 { return 77 }}
+		frags = p.Payload(uint16(mtu), frame)
+		var out []byte
+		for i, f := range frags {
+			q := &codecs.VP9Packet{}
+			x, err := q.Unmarshal(f)
+			if err != nil {
+				return
+			}
+			out = append(out, x...)
+			if q.B != (i == 0) || q.E != (i == len(frags)-1) {
+				beOK = false
+			}
+			if !q.I || q.PictureID != 77 {
+				pidOK = false
+			}
+		}
+		concatOK = bytes.Equal(out, frame)
+	})
+	return Ev{"ev": "huge", "n": n, "mtu": mtu, "res": r, "nfrags": len(frags), "maxlen": maxLen(frags),
+		"facts": []bool{concatOK, beOK, pidOK}}
+}
+
+// C14: one HEVC unit of n bytes (type 19) -> H265Payloader -> H265Packet, reassembled per RFC 7798 (FU payloads
+// behind a rebuilt two-byte unit header)
+func hugeH265(n, mtu int) Ev {
+	unit := hugePattern(n)
+	unit[0], unit[1] = 19<<1, 1
+	in := append([]byte{0, 0, 0, 1}, unit...)
+	var frags [][]byte
+	outOK, seOK := false, true
+	r, _ := guard(func() {
+		frags = (&codecs.H265Payloader{}).Payload(uint16(mtu), in)
+		out := []byte{}
+		for i, f := range frags {
+			p := &codecs.H265Packet{}
+			if _, err := p.Unmarshal(f); err != nil {
+				return
+			}
+			fu, ok := p.Packet().(*codecs.H265FragmentationUnitPacket)
+			if !ok {
+				return
+			}
+			h := fu.FuHeader()
+			if h.S() != (i == 0) || h.E() != (i == len(frags)-1) || h.FuType() != 19 {
+				seOK = false
+			}
+			if i == 0 {
+				ph := fu.PayloadHeader()
+				out = append(out, byte(uint16(ph)>>8)&0x81|19<<1, byte(uint16(ph)))
+			}
+			out = append(out, fu.Payload()...)
+		}
+		outOK = bytes.Equal(out, unit)
+	})
+	return Ev{"ev": "huge", "n": n, "mtu": mtu, "res": r, "nfrags": len(frags), "maxlen": maxLen(frags), "facts": []bool{outOK, seOK}}
+}
